@@ -8,7 +8,8 @@ methods.  Only state-event callbacks are used (they are not persisted, so bundle
 events:  ["ts"] / ["te"]                       a transition_to call starts / ends (brackets, nested for the failed-transition route)
          ["enter", from, to]                   ENTERED_STATE callback
          ["cs", name] / ["ce", name, ret, exc] a control call (kill/pause/play/resume/fail) starts / ends
-         ["obs", state, paused, fut, closed, consistent]   the public projection at a stable point (no transition in progress)
+         ["obs", state, paused, fut, closed, consistent]   the public projection at a stable point (no transition in progress);
+                                                           closed: "T" | "F" | "?" (not observable)
 """
 import json
 import os
@@ -69,7 +70,9 @@ def _attach(p):
     def obs():
         if depth[0] == 0:
             try:
-                ev.append(['obs', _label(p.state), bool(p.paused), _fut(p), bool(getattr(p, '_closed', False)), bool(_consistent(p))])
+                c = getattr(p, '_closed', None)     # private: 'unknown' if the attribute is ever renamed (no verdict then)
+                ev.append(['obs', _label(p.state), bool(p.paused), _fut(p), ('T' if c else 'F') if isinstance(c, bool) else '?',
+                           bool(_consistent(p))])
             except Exception as e:  # noqa  (never disturb the test)
                 ev.append(['obs-error', repr(e)])
 
